@@ -18,6 +18,10 @@ import (
 // usage: zeno-verif c01 <scratch-dir> <trace> <n-seeds> <workers> <max-concurrent-assets> [slow-source-ms]
 func init() { scenarios["c01"] = c01 }
 
+// c01expect: for the site shapes whose outcome is fixed by construction, the URLs that have to be requested before
+// the seed may be reported finished (seed URL -> URLs)
+var c01expect = map[string][]string{}
+
 var htmlCT = map[string]string{"Content-Type": "text/html; charset=utf-8"}
 var pngCT = map[string]string{"Content-Type": "image/png"}
 
@@ -115,6 +119,19 @@ func buildSite(r *rand.Rand, org *origin.Server, k int, shared []string) (seedUR
 		}
 	}
 	org.Route(h, page, htmlPage(fmt.Sprintf("seed %d", k), assets, nil))
+	if k%9 == 4 {
+		// a duplicate that must lose against a node that already led somewhere: the page references a manifest and an
+		// icon; the icon answers with a redirect; the manifest (whose URLs are extracted) lists the icon again
+		mp := p + "/m"
+		icon, icon2 := mp+"/icon.png", mp+"/icon-v2.png"
+		org.Route(h, icon, origin.Resp{Status: 301, Location: icon2})
+		org.Route(h, icon2, okImage(k))
+		org.Route(h, mp+"/manifest.json", origin.Resp{Status: 200, Headers: map[string]string{"Content-Type": "application/json"},
+			Body: `{"name":"x","icons":[{"src":"` + abs(icon) + `","sizes":"64x64"}]}`})
+		org.Route(h, mp+"/page.html", htmlPage("manifest", []string{mp + "/manifest.json", icon}, nil))
+		c01expect[abs(mp+"/page.html")] = []string{abs(mp + "/page.html"), abs(mp + "/manifest.json"), abs(icon), abs(icon2)}
+		return abs(mp + "/page.html"), "manifest-redirect"
+	}
 	switch r.Intn(12) {
 	case 0: // redirect chain to the page
 		n := 1 + r.Intn(3)
@@ -199,6 +216,9 @@ func c01(args []string) error {
 		seeds = append(seeds, Seed{ID: id, Value: u})
 		ids = append(ids, id)
 		run.tr.Emit(map[string]any{"ev": "site", "id": id, "kind": kind, "u": u})
+		if ex, ok := c01expect[u]; ok {
+			run.tr.Emit(map[string]any{"ev": "expect", "id": id, "urls": ex})
+		}
 	}
 	if err := run.Preload(seeds); err != nil {
 		return err
